@@ -27,6 +27,7 @@ pub fn gen_case(seed: u64, focus: &str) -> Value {
         risky: false,
         id_prefix: String::new(),
         ties: g.chance(2, 3),
+        sentinels: false,
     };
     let (instance, summary) = gen_instance(&mut g, &opts);
     let mut h = rng.fork(2);
